@@ -365,6 +365,7 @@ func vRapid[C any](t *testing.T, property, kind, rule string, n int, gen func(*r
 	_ = flag.Set("rapid.checks", strconv.Itoa(n))
 	_ = flag.Set("rapid.seed", strconv.FormatUint(vSeedFor(kind), 10))
 	_ = flag.Set("rapid.nofailfile", "true")
+	_ = flag.Set("rapid.shrinktime", "15s")
 	if os.Getenv("VERIF_SHRINKTIME") != "" {
 		_ = flag.Set("rapid.shrinktime", os.Getenv("VERIF_SHRINKTIME"))
 	}
